@@ -3,7 +3,9 @@
 (* One behaviour = one conversion: the emitter machine of P2Hex.tla run action by action (group prologue,     *)
 (* one action per data line, group epilogue, terminators), for EVERY case of CaseSpace:                       *)
 (*   records placed below / across the 64 KiB, 1 MiB and 16 MiB boundaries, 1-2 records, granularity 1/2,      *)
-(*   x format x option vector (-l, -M, +5, -s, -i, -m, -a, -R, -r, -e, -avrlen, -cformat).                     *)
+(*   x format x option vector (-l, -M, +5, -s, -i, -m, -a, -R, -r, -e, -avrlen, -cformat);                     *)
+(*   and SEVERAL SOURCE FILES per call (FileCases): 2 (Full: also 3) files in every order, each named without  *)
+(*   "(offset)", with "(0)" or with a moving offset, x automatic / half-automatic / explicit -r window x -a.    *)
 (* Devs = {}         : the repaired code.  Every invariant must hold.                                          *)
 (* Devs = PinnedDevs : the pinned code.  InvPinnedExplained must hold (every failure of the public verdict is  *)
 (*                     caused by a NAMED deviation); InvVerdict is expected to FAIL (the model predicts the     *)
@@ -28,7 +30,7 @@ CpuOf(f) == CASE f = "MOTO" -> 1 [] f = "MOS" -> 17 [] f = "INTEL32" -> 19 [] f 
               [] f = "DSK" -> 117 [] OTHER -> 81
 
 BaseO == [fmt |-> "DEFAULT", l |-> 16, M |-> 1, rec5 |-> TRUE, sep |-> FALSE, i |-> 0, m |-> 0, rel |-> FALSE, reloc |-> 0,
-          rstart |-> -1, rstop |-> -1, e |-> -1, avrlen |-> 3, seg |-> 0, filt |-> <<>>, ofs |-> 0,
+          rstart |-> -1, rstop |-> -1, e |-> -1, avrlen |-> 3, seg |-> 0, filt |-> <<>>,
           cfmt |-> <<"d", "S", "E", "l">>]
 
 RecSets(f) ==
@@ -79,11 +81,51 @@ PerFmt(f, o, rs) ==
     [] f = "C" -> {[o EXCEPT !.cfmt = cf] : cf \in {<<"d", "S", "E", "l">>, <<"D", "s", "L">>}}
     [] OTHER -> {o}
 
+\* one source file named without an offset (every case of the two sub-spaces above)
+NoOfs == [sfx |-> FALSE, ofs |-> 0, nota |-> "$"]
+FileD(n, a, fe) == [n |-> n, sfx |-> a.sfx, ofs |-> a.ofs, nota |-> a.nota, fentry |-> fe]
+OneFile(rs, fe) == <<FileD(Len(rs), NoOfs, fe)>>
+
+\* ---- SEVERAL SOURCE FILES in one call.  What the code distinguishes per source argument is whether the name carries
+\*      "(offset)" at all, whether that offset is 0 or moves the file, where the argument stands (a name without offset
+\*      BEFORE / AFTER / BETWEEN names with one) and whether the list is walked once (-r start-stop) or twice (a "$" end:
+\*      MeasureFile walk + ProcessFile walk).  Records A < B < C3 lie apart, so that every combination of the offsets
+\*      below keeps them disjoint; 4096 keeps every address below 64 KiB (all formats can carry it), 65536 (Full)
+\*      moves a file into the next bank.
+OfsArgs == {NoOfs, [sfx |-> TRUE, ofs |-> 0, nota |-> "$"], [sfx |-> TRUE, ofs |-> 4096, nota |-> "dec"]}
+            \cup (IF Full THEN {[sfx |-> TRUE, ofs |-> 65536, nota |-> "0x"]} ELSE {})
+FileLayouts(f) ==
+  LET GG == IF f \in {"ATMEL", "DSK"} THEN {2} ELSE Grans
+      A(G) == Rec(CpuOf(f), 256, BN, G)  B(G) == Rec(CpuOf(f), 256 + BN + 2, 3, G)  C3(G) == Rec(CpuOf(f), 640, 2, G)
+  IN UNION {
+       \* two files with one record each, both orders, every pair of argument shapes
+       {[recs |-> rs, files |-> <<FileD(1, x, fe), FileD(1, y, -1)>>] :
+          rs \in {<<A(G), B(G)>>, <<B(G), A(G)>>}, x \in OfsArgs, y \in OfsArgs, fe \in (IF Full THEN {-1, 4660} ELSE {-1})}
+       \cup (IF ~Full THEN {} ELSE
+         \* three files (a name without offset between / before / after names with one) and files of two records
+         {[recs |-> rs, files |-> <<FileD(1, x, -1), FileD(1, y, -1), FileD(1, z, -1)>>] :
+            rs \in {<<A(G), B(G), C3(G)>>, <<C3(G), A(G), B(G)>>}, x \in OfsArgs, y \in OfsArgs, z \in OfsArgs}
+         \cup {[recs |-> <<A(G), B(G), C3(G)>>, files |-> fs] :
+                 fs \in {<<FileD(2, x, -1), FileD(1, y, -1)>> : x \in OfsArgs, y \in OfsArgs}
+                         \cup {<<FileD(1, x, -1), FileD(2, y, -1)>> : x \in OfsArgs, y \in OfsArgs}})
+       : G \in GG}
+\* windows over the MOVED records: automatic, explicit inner window, (one automatic end)
+FileWindows(lay) ==
+  LET cc == [recs |-> lay.recs, files |-> lay.files, o |-> BaseO]
+      lo == SetMin({RStart(cc, kk) : kk \in RecIdx(cc)})  hi == SetMax({RStart(cc, kk) + RUnits(cc, kk) - 1 : kk \in RecIdx(cc)})
+  IN {<<-1, -1, FALSE>>, <<-1, -1, TRUE>>, <<lo + 1, hi - 1, FALSE>>, <<-1, hi - 1, FALSE>>}
+     \cup (IF Full THEN {<<lo + 1, -1, FALSE>>, <<lo + 1, hi - 1, TRUE>>} ELSE {})
+FileCases(f) ==
+  UNION {{[recs |-> lay.recs, files |-> lay.files,
+           o |-> [BaseO EXCEPT !.fmt = f, !.l = l, !.rstart = w[1], !.rstop = w[2], !.rel = w[3]]] :
+            w \in FileWindows(lay), l \in {SetMax(LineLens)}} : lay \in FileLayouts(f)}
+
 CaseSpace ==
-  UNION {UNION {UNION {{[recs |-> rs, fentry |-> fe, o |-> oo] : oo \in PerFmt(f, o, rs), fe \in {-1}} : o \in Common(f, rs)}
+  UNION {UNION {UNION {{[recs |-> rs, files |-> OneFile(rs, fe), o |-> oo] : oo \in PerFmt(f, o, rs), fe \in {-1}} : o \in Common(f, rs)}
                 : rs \in RecSets(f)} : f \in Fmts}
-  \cup UNION {UNION {UNION {{[recs |-> rs, fentry |-> -1, o |-> oo] : oo \in PerFmt(f, o, rs)} : o \in BoundaryOpts(f)}
+  \cup UNION {UNION {UNION {{[recs |-> rs, files |-> OneFile(rs, -1), o |-> oo] : oo \in PerFmt(f, o, rs)} : o \in BoundaryOpts(f)}
                      : rs \in BoundarySets(f)} : f \in Fmts}
+  \cup UNION {FileCases(f) : f \in Fmts}
 
 \* cases with a definite outcome whose written addresses do not wrap below 0
 Admissible(cc) == (\A kk \in 1..Len(cc.recs) : cc.recs[kk].start >= 0) /\ Definite(cc) /\ TheFmt(cc) \in Fmts /\ ~AutoFails(cc, Devs) /\ \A kk \in Live(cc) : KeyLo(cc, kk) >= 0 /\ KeyHi(cc, kk) < BigAddr
@@ -94,9 +136,9 @@ Init == /\ c \in {cc \in CaseSpace : Admissible(cc)}
 
 BeginGroup ==
   /\ pc = "group" /\ k <= Len(c.recs)
-  /\ LET g0 == GroupOfL(c, k, st.loc, Devs) IN      \* the locals of ProcessFile() as the previous group left them
-       IF ~g0.doit THEN k' = k + 1 /\ UNCHANGED <<c, pc, g, st>>
-       ELSE LET p == Prologue(c, g0, st, Devs) IN g' = p.g /\ st' = p.st /\ pc' = "line" /\ UNCHANGED <<c, k>>
+  /\ LET g0 == GroupOfL(c, k, AtFile(c, k, st).loc, Devs) IN      \* the locals of ProcessFile() as the previous group of the FILE left them
+       IF ~g0.doit THEN k' = k + 1 /\ st' = AtFile(c, k, st) /\ UNCHANGED <<c, pc, g>>
+       ELSE LET p == Prologue(c, g0, AtFile(c, k, st), Devs) IN g' = p.g /\ st' = p.st /\ pc' = "line" /\ UNCHANGED <<c, k>>
 DataLine ==
   /\ pc = "line" /\ g.el > 0
   /\ LET n == LineStep(c, g, st, Devs) IN g' = n.g /\ st' = n.st
